@@ -29,6 +29,10 @@ def scenario_families(rnd, tier):
         (B1, [1, 3, 5], "corrupt=%d" % (len(B1) and 30), "second part corrupted"),
         (B1, [2], "corrupt=0", "plain range corrupted"),
         (B1, [2], "forcemulti=1", "single range sent as multipart"),
+        # the application's own header / write callbacks registered on the handle: the library's callbacks do the same work first
+        (B1, [1, 3], "usercb=1", "application callbacks registered, two parts"),
+        (B1, [2, 3], "usercb=1", "application callbacks registered, plain range"),
+        (B2, [1, 3, 5], "usercb=1 quoted=1 extra=1", "application callbacks registered, zstd, quoted boundary"),
     ]:
         fams.append((B, missing, opts, tag))
     # multi-block chunks: the zero-fill of a failed chunk and the verification span several 32 KiB buffers
